@@ -32,7 +32,7 @@ VALUE = [
   # checked against its FromSpecImpl (from_spec(v) == Value::Number(v)): the literal's digits and scale reach the value unchanged
   F('<Value as From<Decimal>>::from', props=['C03', 'C09', 'C17'], spec=""),
 ] + [
-  F('<Value as From<%s>>::from' % ty, props=['C17'],
+  F('<Value as From<%s>>::from' % ty, props=['C03', 'C17'],
     spec="    ensures r matches Value::Number(d) && is_int(d, value as int),  // @C17 from.%s" % ty,
     ops=[Ins('entry', '', "        proof { broadcast use axiom_dec_of_int; }")])
   for ty in INTS
